@@ -26,7 +26,7 @@ Finger(r) ==
         ELSE IF ~r.compiles THEN {<<"C01", "does-not-compile", "witness", r.id>>}
         ELSE (IF "wrap-pkg" \notin Rng(r.imports) THEN {<<"C18", "imports-differ-from-needed", "wrap-package-missing", r.id>>} ELSE {})
              \cup (IF r.msg1 # "path:|boom" THEN {<<"C07", "wrong-location-path", "wrap-not-applied-for-empty-path", r.id>>} ELSE {}))
-  ELSE IF w.kind = "ctxregex" THEN
+  ELSE IF w.kind \in {"ctxregex", "ctxregexfn"} THEN
        (IF r.gen # "ok" /\ RegexOK(w) THEN {<<"C12", "valid-rejected", "ctxregex-witness", r.id>>}
         ELSE IF r.gen = "ok" /\ ~RegexOK(w) THEN {<<"C12", "precedence", "ctxregex-not-in-effect", r.id>>}
         ELSE IF r.gen = "ok" /\ ~r.compiles THEN {<<"C01", "does-not-compile", "witness", r.id>>} ELSE {})
